@@ -1012,6 +1012,21 @@ Proof.
   vm_compute in E. discriminate.
 Qed.
 
+(* F24, two stores: the stores flush independently; a younger transient message that is flushed is loaded
+   and delivered before an older persistent one that is not, and the older one is then never loaded. *)
+Definition f24_two_stores_witness : list label :=
+  [Push 1 false; Push 2 false; Push 3 false; Push 4 true; Push 5 false; PersistTick false; Pop; Pop; Pop;
+   LoaderTurn; Pop; PersistTick true; LoaderTurn; Pop].
+
+Lemma config_independent_refuted_F24_two_stores : ~ config_independent_statement.
+Proof.
+  intro H. specialize (H true 2 100 f24_two_stores_witness f24_two_stores_witness).
+  assert (E : client_outs f24_two_stores_witness (snd (q_run (mkCfg true 2) q_init f24_two_stores_witness)) =
+              client_outs f24_two_stores_witness (snd (q_run (mkCfg true 100) q_init f24_two_stores_witness))).
+  { apply H; try reflexivity; vm_compute; congruence. }
+  vm_compute in E. discriminate.
+Qed.
+
 (* F24b: purge while swapped leaves the transient store and the flag: the purged message comes back,
    and the length counter goes negative. *)
 Definition f24_purge_witness : list label :=
